@@ -8,6 +8,7 @@ import (
 	"net"
 	"strings"
 	"testing"
+	"time"
 
 	mcnet "github.com/Tnze/go-mc/net"
 
@@ -29,7 +30,9 @@ var (
 	pCutMid       = simrt.NewProbe("byzantine.cut.mid.frame")
 	pLenReject    = simrt.NewProbe("declared.length.must.reject")
 	pLenAccept    = simrt.NewProbe("declared.length.must.accept")
+	pIdle         = simrt.NewProbe("login.idle.time.before.a.command")
 	pPipelined    = simrt.NewProbe("login.commands.pipelined")
+	pFailedWrite  = simrt.NewProbe("codec.one.write.failed.transiently.then.connection.reused")
 	pMultiConn    = simrt.NewProbe("codec.several.connections.in.one.world")
 )
 
@@ -90,11 +93,12 @@ type triple struct {
 }
 
 type codecConn struct {
-	pkts []triple
-	cfg  simnet.LinkCfg
-	link *simnet.Link
-	got  []triple
-	rerr error
+	failed int
+	pkts   []triple
+	cfg    simnet.LinkCfg
+	link   *simnet.Link
+	got    []triple
+	rerr   error
 }
 
 func scenarioCodec(c *harness.Ctx) {
@@ -105,7 +109,7 @@ func scenarioCodec(c *harness.Ctx) {
 	}
 	conns := make([]*codecConn, nConn)
 	for k := range conns {
-		cc := &codecConn{}
+		cc := &codecConn{failed: -1}
 		n := 1 + tp.Choose(20)
 		if tp.Bool(2, 3) {
 			n = 1 + tp.Choose(4)
@@ -120,6 +124,11 @@ func scenarioCodec(c *harness.Ctx) {
 			total += len(cc.pkts[i].payload) + 14
 		}
 		cc.cfg = simnet.DrawCfgFor(tp, total)
+		if tp.Bool(1, 5) {
+			// one WritePacket fails once (timeout, nothing sent); the application
+			// carries on with the next packet on the same connection
+			cc.cfg.FailWriteCall = 1 + tp.Choose(n)
+		}
 		conns[k] = cc
 	}
 	c.Config["connections"] = nConn
@@ -132,14 +141,27 @@ func scenarioCodec(c *harness.Ctx) {
 				wc := &mcnet.RCONConn{Conn: cc.link.A}
 				for i, p := range cc.pkts {
 					if err := wc.WritePacket(p.id, p.typ, p.payload); err != nil {
+						if cc.cfg.FailWriteCall == i+1 {
+							cc.failed = i // told to the application: not sent
+							continue
+						}
 						c.Fail("rcon.codec", "write", "error", "WritePacket %d failed: %v", i, err)
 						return
 					}
+					if cc.cfg.FailWriteCall == i+1 {
+						c.Fail("rcon.codec", "write", "swallowed-error", "WritePacket %d returned nil although the connection's Write failed", i)
+						return
+					}
 				}
+				cc.link.A.CloseWrite()
 			})
 			w.Go(fmt.Sprintf("reader%d", k), func() {
 				rc := &mcnet.RCONConn{Conn: cc.link.B}
-				for range cc.pkts {
+				want := len(cc.pkts)
+				if cc.cfg.FailWriteCall > 0 {
+					want--
+				}
+				for i := 0; i < want; i++ {
 					id, typ, p, err := rc.ReadPacket()
 					if err != nil {
 						cc.rerr = err
@@ -163,9 +185,17 @@ func scenarioCodec(c *harness.Ctx) {
 	}
 	for k, cc := range conns {
 		pkts, got, link := cc.pkts, cc.got, cc.link
+		if cc.cfg.FailWriteCall > 0 {
+			if cc.failed < 0 {
+				c.Infra = "transient write failure configured but never hit"
+				return
+			}
+			pFailedWrite.Hit()
+			pkts = append(append([]triple(nil), pkts[:cc.failed]...), pkts[cc.failed+1:]...)
+		}
 		n := len(pkts)
 		if cc.rerr != nil {
-			c.Fail("rcon.codec", "read", "error", "connection %d of %d: ReadPacket %d of %d failed on a stream of valid frames: %v (payload length %d)", k, nConn, len(got), n, cc.rerr, len(pkts[len(got)].payload))
+			c.Fail("rcon.codec", "read", "error", "connection %d of %d: ReadPacket %d of %d failed on a stream of valid frames: %v (failed write call: %d)", k, nConn, len(got), n, cc.rerr, cc.cfg.FailWriteCall)
 			return
 		}
 		for i := range pkts {
@@ -361,6 +391,12 @@ func scenarioLogin(c *harness.Ctx) {
 		pPipelined.Hit()
 		cfgAB.Window, cfgBA.Window = 0, 0 // or the two single-threaded ends dead-lock themselves
 	}
+	idle := make([]time.Duration, nCmd)
+	for i := range idle {
+		if tp.Bool(1, 4) {
+			idle[i] = time.Duration(1+tp.Choose(600)) * time.Second
+		}
+	}
 	c.Config["match"] = match
 	c.Config["commands"] = nCmd
 	c.Config["pipelined"] = pipelined
@@ -424,6 +460,11 @@ func scenarioLogin(c *harness.Ctx) {
 				return
 			}
 			for i := 0; i < nCmd; i++ {
+				if idle[i] > 0 {
+					// an operator types the next command minutes later
+					pIdle.Hit()
+					w.Sleep(idle[i])
+				}
 				if err := cli.Cmd(cmds[i]); err != nil {
 					cmdErr = fmt.Errorf("Cmd %d: %w", i, err)
 					break
